@@ -35,6 +35,7 @@ type fnode struct {
 	spins    int
 	rank     int
 	honour   bool
+	span     bool
 	children []*fnode
 	conn     *cnode
 	id       int
@@ -71,7 +72,7 @@ func (b *builder) add(it *itemT) int {
 }
 
 func plainItem(n *fnode, parent int) *itemT {
-	it := &itemT{kind: n.kind, bkey: n.bkey, parent: parent, ok: n.outcome != 1, mode: n.mode, spins: n.spins, rank: n.rank, honour: n.honour}
+	it := &itemT{kind: n.kind, bkey: n.bkey, parent: parent, ok: n.outcome != 1, mode: n.mode, spins: n.spins, rank: n.rank, honour: n.honour, span: n.span}
 	return it
 }
 
@@ -408,6 +409,8 @@ func runCaseCancel(roots []*fnode, gmp int, batchSpins [nBatch]int, cancelKind, 
 	rs.syncMode = true
 	syncResp := serve(rs, query)
 
+	altResp, hasAlt := altReference(roots, b, query, syncResp)
+
 	pre := gset()
 	r := newRun(b.items, b.conns)
 	r.batchSpins = batchSpins
@@ -462,9 +465,48 @@ func runCaseCancel(roots []*fnode, gmp int, batchSpins [nBatch]int, cancelKind, 
 		sexp.T("trace", sexp.L(tr...)),
 		sexp.T("delivered", sexp.L(r.deliveries...)),
 		sexp.T("resp", sexp.Str(asyncResp), sexp.Str(syncResp)),
+		sexp.T("respalt", altNode(altResp, hasAlt)...),
 		sexp.T("leak", sexp.Int(leak)),
 		sexp.T("hang", sexp.Bool(hang)),
 		sexp.T("problems", sexp.L(probs...)))
+}
+
+func altNode(alt string, has bool) []sexp.Node {
+	if !has {
+		return nil
+	}
+	return []sexp.Node{sexp.Str(alt)}
+}
+
+// doubleFailure: a time-based connection whose first getter fails through a promise and whose second
+// getter fails synchronously.
+func doubleFailure(nodes []*fnode) bool {
+	for _, n := range nodes {
+		if c := n.conn; c != nil && c.variant == 1 && len(c.getters) == 2 &&
+			c.getters[0].kind != kSync && c.getters[0].fail && c.getters[1].kind == kSync && c.getters[1].fail {
+			return true
+		}
+		if doubleFailure(n.children) {
+			return true
+		}
+	}
+	return false
+}
+
+// altReference: the all-synchronous response in which the failure of a getter that answers through
+// a promise does not pre-empt a later getter's synchronous failure: the other admissible error of
+// the same field.  Only offered when the data is identical to the reference's.
+func altReference(roots []*fnode, b *builder, query, syncResp string) (string, bool) {
+	if !doubleFailure(roots) {
+		return "", false
+	}
+	ra := newRun(b.items, b.conns)
+	ra.syncMode, ra.altSync = true, true
+	alt := serve(ra, query)
+	if strings.SplitN(alt, "|", 2)[0] != strings.SplitN(syncResp, "|", 2)[0] {
+		return "", false
+	}
+	return alt, true
 }
 
 // ---- generators -------------------------------------------------------------------------------
@@ -536,12 +578,8 @@ func genConn(r *rng.R) *fnode {
 		}
 		// Two failing range queries of one field, the first through a promise and the second
 		// synchronously: the resolver reports the second at once, its all-synchronous version the
-		// first.  Which of the two failures of the same field is reported is decided by the
-		// connection resolver before any promise is awaited, not by Go/Batch/the idle handler, so
-		// "same response as the synchronous run" is not defined for it: not generated.
-		if len(c.getters) == 2 && c.getters[0].kind != kSync && c.getters[0].fail && c.getters[1].kind == kSync {
-			c.getters[1].fail = false
-		}
+		// first (C02's known finding admissible-error-differs).  Generated; the response clause
+		// accepts either admissible error with identical data (altReference).
 		c.edges = r.Intn(4)
 	case 2:
 		c.getters = []gmode{genGetter(r)}
@@ -687,8 +725,12 @@ func main() {
 				for k := range bs {
 					bs[k] = r.Intn(4)
 				}
-				events := r.Range(1, 3)
-				return runCaseWS(roots, gmp, bs, events, r.Intn(events))
+				events := r.Range(0, 3) // 0: a plain query over the WebSocket
+				which := 0
+				if events > 0 {
+					which = r.Intn(events)
+				}
+				return runCaseWS(roots, gmp, bs, events, which)
 			})
 		}
 		// 5. subscriptions whose every event leaves pending work behind: an asynchronous object
@@ -713,6 +755,22 @@ func main() {
 						})
 					}
 				}
+			}
+		}
+		// 5b. a Go function of one event that returns only while the NEXT event's idle handler is
+		// blocked in its receive (the asyncResolutions channel is shared by the events of a subscription)
+		for rep := 0; rep < 12; rep++ {
+			for events := 2; events <= 3; events++ {
+				events := events
+				gmp := gmps[idx%len(gmps)]
+				idx++
+				h.Case(func(r *rng.R) sexp.Node {
+					parent := &fnode{kind: kGo, mode: mLate, children: []*fnode{
+						{kind: kGo, leaf: true, mode: mLate, rank: 1, span: true},
+						{kind: kSync, leaf: true, nonnull: true, outcome: 1},
+					}}
+					return runCaseWS([]*fnode{parent}, gmp, [nBatch]int{}, events, events-1)
+				})
 			}
 		}
 		// 6. the request context is cancelled at a generated point; half of the Go functions look at
